@@ -1,6 +1,128 @@
-//! C05 harness commands (stub).
-use std::io::Write;
+//! C05: the real ledger parser and formatter.
+//!
+//! `hx c05 parse` — case line: `<enc(text)>`; record:
+//!     `<start>:<end> <entry sexp> | <start>:<end> <entry sexp> | ... # done`
+//!     `... # err <error_span.start> <error_span.end> <line_start>`      (entries parsed before the error come first)
+//!     `... # panic <enc(message)>`
+//!   spans are byte offsets of `ParsedContext::as_str()` within the text; the error fields are read from the
+//!   `Debug` rendering of `ParseError` (its fields are private).
+//! `hx c05 fmt` — case line: `<enc(text)>`; record: `ok <enc(formatted)>` | `err parse` | `err other` | `panic <enc(message)>`
+//!   (`okane::format::format`, i.e. `FormatOptions::new().recursive(false).format`, the function behind `okane format`).
+//! `hx c05 width` — case line: `<enc(text)>`; record: `<width_cjk> <width>` (unicode-width, as used by display.rs).
+use std::io::{BufRead, Write};
 
-pub fn run(_args: &[String], _out: &mut dyn Write) -> i32 {
+use okane_core::syntax;
+
+use crate::{sx, tree};
+
+/// Extracts (error_span.start, error_span.end, line_start) from `format!("{:?}", ParseError)`.
+/// Layout: `ParseError(ParseErrorImpl { renderer: .., error_span: A..B, input: "..", line_start: N, winnow_error: .. })`.
+fn error_fields(dbg: &str) -> Option<(usize, usize, usize)> {
+    let key = "error_span: ";
+    let p = dbg.find(key)? + key.len();
+    let rest = &dbg[p..];
+    let dots = rest.find("..")?;
+    let a: usize = rest[..dots].parse().ok()?;
+    let rest = &rest[dots + 2..];
+    let comma = rest.find(',')?;
+    let b: usize = rest[..comma].parse().ok()?;
+    let key2 = "input: \"";
+    let q = rest.find(key2)? + key2.len();
+    // skip the Debug string literal (escapes: backslash + one char, or \u{...} which contains no quote)
+    let bytes = rest.as_bytes();
+    let mut i = q;
+    while i < bytes.len() {
+        match bytes[i] {
+            b'\\' => i += 2,
+            b'"' => break,
+            _ => i += 1,
+        }
+    }
+    let rest = &rest[i + 1..];
+    let key3 = "line_start: ";
+    let r = rest.find(key3)? + key3.len();
+    let rest = &rest[r..];
+    let end = rest.find(|c: char| !c.is_ascii_digit())?;
+    let n: usize = rest[..end].parse().ok()?;
+    Some((a, b, n))
+}
+
+fn parse_record(text: &str) -> String {
+    let opts = okane_core::parse::ParseOptions::default();
+    let mut parts: Vec<String> = Vec::new();
+    let base = text.as_ptr() as usize;
+    for r in okane_core::parse::parse_ledger::<syntax::plain::Ident>(&opts, text) {
+        match r {
+            Ok((ctx, e)) => {
+                let s = ctx.as_str();
+                let start = s.as_ptr() as usize - base;
+                parts.push(format!("{}:{} {}", start, start + s.len(), tree::entry(&e)));
+            }
+            Err(e) => {
+                let dbg = format!("{:?}", e);
+                let tail = match error_fields(&dbg) {
+                    Some((a, b, n)) => format!("# err {} {} {}", a, b, n),
+                    None => format!("# err ? ? ? {}", sx::enc(&dbg)),
+                };
+                return join(parts, &tail);
+            }
+        }
+    }
+    join(parts, "# done")
+}
+
+fn join(parts: Vec<String>, tail: &str) -> String {
+    if parts.is_empty() {
+        tail.to_string()
+    } else {
+        format!("{} {}", parts.join(" | "), tail)
+    }
+}
+
+fn fmt_record(text: &str) -> String {
+    let mut out: Vec<u8> = Vec::new();
+    let mut input = text.as_bytes();
+    match okane::format::format(&mut input, &mut out) {
+        Ok(()) => format!("ok {}", sx::enc_bytes(&out)),
+        Err(okane_core::format::FormatError::Parse(_)) => "err parse".to_string(),
+        Err(_) => "err other".to_string(),
+    }
+}
+
+pub fn run(args: &[String], out: &mut dyn Write) -> i32 {
+    let mode = args.first().map(|s| s.as_str()).unwrap_or("parse");
+    let stdin = std::io::stdin();
+    for line in stdin.lock().lines() {
+        let line = line.unwrap();
+        let text = match sx::dec(line.trim()) {
+            Some(t) => t,
+            None => {
+                writeln!(out, "bad-case").unwrap();
+                continue;
+            }
+        };
+        let rec = match mode {
+            "parse" => {
+                let t = text.clone();
+                match sx::catch(move || parse_record(&t)) {
+                    Ok(r) => r,
+                    Err(m) => format!("# panic {}", sx::enc(&m)),
+                }
+            }
+            "fmt" => {
+                let t = text.clone();
+                match sx::catch(move || fmt_record(&t)) {
+                    Ok(r) => r,
+                    Err(m) => format!("panic {}", sx::enc(&m)),
+                }
+            }
+            "width" => {
+                use unicode_width::UnicodeWidthStr;
+                format!("{} {}", UnicodeWidthStr::width_cjk(text.as_str()), UnicodeWidthStr::width(text.as_str()))
+            }
+            _ => "bad-mode".to_string(),
+        };
+        writeln!(out, "{}", rec).unwrap();
+    }
     0
 }
